@@ -75,7 +75,8 @@ func resolveSecretsEnvironment(dict map[string]any, environment types.Mapping) {
 			continue
 		}
 		env, ok := secret["environment"].(string)
-		if !ok {
+		if !ok || env == "" {
+			// no variable has an empty name: nothing to resolve
 			continue
 		}
 		if found, ok := environment[env]; ok {
@@ -98,7 +99,9 @@ func resolveConfigsEnvironment(dict map[string]any, environment types.Mapping) {
 			continue
 		}
 		env, ok := config["environment"].(string)
-		if !ok {
+		if !ok || env == "" {
+			// no variable has an empty name: nothing to resolve (and the renderers could not tell
+			// such a content from an inline one, so it would be rendered)
 			continue
 		}
 		if found, ok := environment[env]; ok {
